@@ -277,12 +277,57 @@ End WithTable.
 
 Definition init_ost (i : cfg_input) : ost := {| s_store := i_store i; s_pend := [] |}.
 
+(* ---- a port list that names no listener at attach time ----
+   Tor reports a port list (<X>PortLines row) that was never configured as unset, and one set to
+   the single word "auto" as "auto".  The property text does not settle what the view shows then.
+   Two readings are accepted, each consistently for the whole history:
+     (1) the value as Tor reports it (unset -> the config/defaults lines, "auto" -> ["auto"]);
+     (2) the lines Tor will use by default: the config/defaults lines of <X>, or, where
+         config/defaults has none, the values of the option __<X> (through which older Tors
+         announce the built-in default of <X>).
+   Reading (2) is a store in which <X> carries those lines.  Both readings agree as soon as an
+   event or an acknowledged save gives <X> a value. *)
+Definition dunder (cn : bytes) : bytes := bs "__" ++ cn.
+
+Definition unset_or_auto (vals : list bytes) : bool :=
+  match nonempty_values vals with [] => true | [v] => beqb v auto_word | _ => false end.
+
+(* the lines reading (2) gives option o, where it differs from Tor's report *)
+Definition eff_value (i : cfg_input) (o : bytes * kind) : option (list bytes) :=
+  match snd o with
+  | KPorts =>
+      if unset_or_auto (store_get (i_store i) (fst o))
+      then Some (if is_nil (default_lines (i_defaults i) (fst o))
+                 then store_get (i_store i) (dunder (fst o)) else [])
+      else None
+  | _ => None
+  end.
+
+Definition eff_store (i : cfg_input) : store :=
+  fold_left (fun (s : store) (o : bytes * kind) =>
+               match eff_value i o with Some v => dset (fst o) v s | None => s end)
+            (options (i_table i)) (i_store i).
+
+Definition eff_ost (i : cfg_input) : ost := {| s_store := eff_store i; s_pend := [] |}.
+
+Definition worlds (i : cfg_input) : list ost := [init_ost i; eff_ost i].
+
+Definition cfg_oracle_from (i : cfg_input) (st0 : ost) (tr : list obs) : bool :=
+  spec_run (options (i_table i)) (i_defaults i) st0 (i_ops i) tr.
+
 Definition cfg_oracle (i : cfg_input) (tr : list obs) : bool :=
-  spec_run (options (i_table i)) (i_defaults i) (init_ost i) (i_ops i) tr.
+  existsb (fun st0 => cfg_oracle_from i st0 tr) (worlds i).
 
 (* the view right after attaching: every option reads as Tor's value parsed by its type *)
+Definition boot_oracle_from (i : cfg_input) (st0 : ost) (boot_ok : bool) (snap : list rres) : bool :=
+  boot_ok && snap_ok (options (i_table i)) (i_defaults i) st0 (options (i_table i)) snap.
+
 Definition boot_oracle (i : cfg_input) (boot_ok : bool) (snap : list rres) : bool :=
-  boot_ok && snap_ok (options (i_table i)) (i_defaults i) (init_ost i) (options (i_table i)) snap.
+  existsb (fun st0 => boot_oracle_from i st0 boot_ok snap) (worlds i).
+
+(* bootstrap and history, judged under one reading *)
+Definition full_oracle (i : cfg_input) (boot_ok : bool) (snap : list rres) (tr : list obs) : bool :=
+  existsb (fun st0 => boot_oracle_from i st0 boot_ok snap && cfg_oracle_from i st0 tr) (worlds i).
 
 (* ================================================================== the envelope *)
 (* printable ASCII *)
@@ -388,7 +433,13 @@ Definition store_ok (table : list (bytes * bytes)) (st : store) : bool :=
   && forallb (fun e : bytes * list bytes =>
                 (mem_bytes (fst e) (map fst opts) || mem_bytes (fst e) (map fst table))
                 && forallb (fun v => is_nil v || tor_value_ok v) (snd e)) st
-  && nodup_keys st.
+  && nodup_keys st
+  (* the option __<X> through which the default of a port list <X> is announced holds lines *)
+  && forallb (fun o : bytes * kind =>
+                match snd o with
+                | KPorts => forallb tor_value_ok (store_get st (dunder (fst o)))
+                | _ => true
+                end) opts.
 
 Definition defaults_ok (opts : list (bytes * kind)) (d : option (list (bytes * bytes))) : bool :=
   match d with
